@@ -239,8 +239,8 @@ def case(ch):
             m = 0.0 if content["offset_pow"] is None else 2.0 ** content["offset_pow"] * (-1 if content["offset_neg"] else 1)
             db = float(np.nanmax(np.abs(r0.bkg.astype(np.float64) - m))) / s
             dr = float(np.nanmax(np.abs(r0.rms.astype(np.float64) / s - 1.0)))
-            out.stats["max_gauss_bkg_dev_milli"] = max(out.stats["max_gauss_bkg_dev_milli"], int(1000 * db * np.sqrt(neff) / 7))
-            out.stats["max_gauss_rms_dev_milli"] = max(out.stats["max_gauss_rms_dev_milli"], int(1000 * dr / (0.08 + 7 / np.sqrt(2 * neff))))
+            out.maximum("gaussian_bkg_deviation/allowed", db * np.sqrt(neff) / 7)
+            out.maximum("gaussian_rms_deviation/allowed", dr / (0.08 + 7 / np.sqrt(2 * neff)))
             if db > 7 / np.sqrt(neff) or dr > 0.08 + 7 / np.sqrt(2 * neff):
                 out.violation("gaussian", "stationary Gaussian noise (mean %g, rms %g, smallest box population %d): "
                               "max |bkg-m| = %.3g s, max |rms/s-1| = %.3g [layout %s]" % (m, s, neff, db, dr, r0.layout),
